@@ -178,22 +178,36 @@ let first_diff (a : string list) (b : string list) : string =
     | x :: a', y :: b' -> if x = y then go (i + 1) a' b' else Printf.sprintf "end line %d: implementation `%s`, model `%s`" i x y in
   go 0 a b
 
-(* Reduction of the search (not of what is accepted, see below): two kinds of steps never print anything and can be moved to the front of
-   any run without changing the events or the final state (up to the order inside queues):
-     - GFinTask (finish_task): the rule becomes Complete, its waiters are woken; every other step finds an input that is Complete where it
-       found it Computing before, which only changes WHERE a request waits (requestedBy / deferredScanRequests of the task, or the queue);
-     - GFinInreq of an order-only request (mustFollow): only the waitCount of the requesting task goes down (and the task may become ready;
-       it still waits in readyTaskInfos for its own step).
-   So when such a step is enabled the search takes it and nothing else.  The argument is not machine-checked: if it were wrong the search
-   could miss a run (and the handler, which repeats a failed search without the reduction, would notice); it cannot accept a non-run,
-   because every state is still produced by enabled_gen alone.  VERIF_ACC_EAGER=0 switches the reduction off. *)
+(* Reduction of the search (not of what is accepted, see below): the delivery of an order-only request (GFinInreq of a mustFollow
+   request) prints nothing and only lowers the waitCount of the requesting task (which may become ready; it still waits in readyTaskInfos
+   for its own step), and nothing else reads that counter: moved to the front of a run it changes neither the events nor the final state.
+   So when such a step is enabled the search takes it and nothing else.
+   GFinTask (finish_task of t) prints nothing either, and for every step but one it only changes WHERE a request for t waits (in t's
+   requestedBy or directly in finishedInputRequests).  The exception is a dependency scan: a scan that finds its input t still Computing
+   parks on the task and continues in a LATER step, after other events; once t is finished the scan walks past t in the same step.  (Taking
+   finish_task eagerly without regard to this lost 3 of 40493 builds of the thorough tier, found by the repetition below.)  So
+   finish_task of t is taken eagerly only when no scan can reach t any more (scan_may_reach).  The argument is not machine-checked: if it were wrong the search could miss a run (and the
+   handler, which repeats a failed search without the reductions, would notice); it cannot accept a non-run, because every state is
+   still produced by enabled_gen alone.  VERIF_ACC_EAGER=0 switches the reduction off. *)
 let eager = ref (match Sys.getenv_opt "VERIF_ACC_EAGER" with Some "0" -> false | _ -> true)
+(* some rule that is being scanned, or has not been scanned yet in this build (loaded or still only a database row), has t among its
+   recorded dependencies: a scan may still walk over t *)
+let scan_may_reach (s : istate) (t : n) : bool =
+  let mentions deps = List.exists (fun d -> d.d_key = t) deps in
+  let unscanned ri = (match ri.ri_kind with
+      | KIncomplete | KScanning -> true
+      | KComplete -> ri.ri_res.res_builtAt <> s.is_epoch
+      | _ -> false) in
+  List.exists (fun (_, ri) -> unscanned ri && mentions ri.ri_res.res_deps) s.is_rules
+  || (s.is_usedb && List.exists (fun (k, r) -> not (List.mem_assoc k s.is_rules) && mentions r.res_deps) s.is_db)
 let eager_only (s : istate) (cands : (glabel * istate) list) : (glabel * istate) list =
   let silent (_, s') = (match new_events s.is_log s'.is_log with Some [] -> true | _ -> false) in
-  match List.find_opt (fun ((l, _) as c) -> (match l with GFinTask _ -> silent c | _ -> false)) cands with
+  match List.find_opt (fun ((l, s') as c) -> (match l with GFinInreq _ -> silent c && s'.is_fault = s.is_fault | _ -> false)) cands with
   | Some c -> [c]
   | None ->
-    (match List.find_opt (fun ((l, s') as c) -> (match l with GFinInreq _ -> silent c && s'.is_fault = s.is_fault | _ -> false)) cands with
+    (match List.find_opt (fun (l, _) -> (match l with
+        | GFinTask i -> (match List.nth_opt s.is_fintasks (int_of_nat i) with Some t -> not (scan_may_reach s t) | None -> false)
+        | _ -> false)) cands with
      | Some c -> [c]
      | None -> cands)
 
